@@ -14,7 +14,7 @@ from engine.unit import Fn, Raw, Type, Unit
 
 VM = "crates/runtime/src/vm.rs"
 VAL = "crates/runtime/src/types/value.rs"
-P = ("C14", "C06")
+P = ("C14", "C06", "C17")
 
 PRELUDE = r"""
 global size_of usize == 8;   // assumption: 64-bit target
@@ -81,6 +81,10 @@ impl ValueKey {
     #[verifier::external_body]
     pub fn try_from_value(v: KValue) -> (r: Result<ValueKey>) ensures r matches Ok(k) ==> key_of(v) == Some(k), r is Err ==> key_of(v) is None { unimplemented!() }
 }
+// ValueKey's `==` is an equivalence relation (impl Eq for ValueKey): ASSUMED
+#[verifier::external_body]
+pub proof fn axiom_same_key_equivalence(a: ValueKey, b: ValueKey, c: ValueKey)
+    ensures same_key(a, a), same_key(a, b) == same_key(b, a), same_key(a, b) && same_key(b, c) ==> same_key(a, c) {}
 pub open spec fn position(s: Seq<(ValueKey, KValue)>, k: ValueKey, j: int) -> bool { 0 <= j < s.len() && same_key(s[j].0, k) }
 pub open spec fn absent(s: Seq<(ValueKey, KValue)>, k: ValueKey) -> bool { forall|j: int| 0 <= j < s.len() ==> !same_key(#[trigger] s[j].0, k) }
 #[verifier::external_body] pub struct MapData { _p: u8 }
@@ -164,14 +168,31 @@ impl Clone for KValue { #[verifier::external_body] fn clone(&self) -> (r: Self) 
                ("list_data[i] = value.clone();", "list_data.set(i, value.clone());", None),
                ("for i in range.indices(list_len) {", "for i in it: range.indices(list_len) {", None),
                ('runtime_error!("invalid index ({index})")', "runtime_error_invalid_index(index)", None),
+               (r'runtime_error!\(\s*"the key \'\{key\}\' already exists at index \{existing_index\}"\s*\)', "runtime_error_key_exists()", None, "re"),
                (r"&WriteOp::IndexAssign\.into\(\)", "&index_assign_key()", None, "re"),
                ("map.into()", "KValue::Map(map)", None),
                (r"ValueKey::try_from\(new_entry\[0\]\.clone\(\)\)\?", "ValueKey::try_from_value(new_entry.get_cloned(0))?", None, "re"),
                (r"new_entry\[1\]\.clone\(\)", "new_entry.get_cloned(1)", None, "re"),
            ],
-           loops={1: "    invariant list_data@.len() == list_len, it.end <= list_len,"},
+           let_chains=True,
+           loops={1: "    invariant list_data@.len() == list_len, it.iter.end <= list_len,"},
            before=[
                ("let map_len = map_data.len();", "let ghost before_entries = map_data@;"),
+               ("map_data.insert(key, new_entry", r"""proof {
+    // after the uniqueness check the new key equals the key of no OTHER entry
+    assert forall|j: int| 0 <= j < before_entries.len() && j != u_index implies !same_key(#[trigger] before_entries[j].0, key) by {
+        if same_key(before_entries[j].0, key) {
+            axiom_same_key_equivalence(before_entries[u_index as int].0, key, key);
+            axiom_same_key_equivalence(before_entries[j].0, key, before_entries[u_index as int].0);
+        }
+    }
+    // the old entry is gone, the last one took its place: the new key is not in the map now
+    assert forall|j: int| 0 <= j < map_data@.len() implies !same_key(#[trigger] map_data@[j].0, key) by {   // @replaces_entry_in_place
+        if j == u_index { assert(map_data@[j] == before_entries[before_entries.len() - 1]); } else { assert(map_data@[j] == before_entries[j]); }   // @replaces_entry_in_place
+    }
+    assert(absent(map_data@, key));
+}
+"""),
                ("Ok(())", r"""proof {
     // C14: entry `u_index` is replaced by (key, value); every other entry stays where it was
     assert(map_data@ =~= before_entries.update(u_index as int, (key, new_entry.elems()[1])));   // @replaces_entry_in_place
